@@ -124,7 +124,21 @@ func c05RunNative(c *c05Case, target any, x *c05NatCtx) c05Outcome {
 		return c05Run("native:"+strconv.Itoa(c.FP), &c.D, target)
 	}
 	m := c05NativeDoc(c.S, &c.D, c05Mix(uint64(c.FP), 1), x)
-	return c05Call(func() error { return mapping.UnmarshalKey(m, target) })
+	// observed class only (the statement is silent on it): is the caller's document the same afterwards?
+	// (fmt prints maps in key order; pointers print as addresses, which do not change)
+	before := ""
+	if small := len(c.D.M) <= 8 && len(c.D.JSON()) < 2048; small {
+		before = fmt.Sprintf("%v", m)
+	}
+	out := c05Call(func() error { return mapping.UnmarshalKey(m, target) })
+	if before != "" && out.Panic == nil {
+		if fmt.Sprintf("%v", m) == before {
+			x.class("native:input-unchanged")
+		} else {
+			x.class("native:input-modified-by-unmarshal")
+		}
+	}
+	return out
 }
 
 func c05RunPlain(ep string, d *c05JV, target any) c05Outcome {
